@@ -62,3 +62,23 @@ Definition out_res {A} (o : outcome A) : option (result A) :=
   | Exn KeyError => Some (RErr E_KEY)
   | OutOfFuel => None
   end.
+
+(* x in ["..", ".."] for strs; s.replace(c, "") for a one-character c *)
+Definition str_in (x : text) (l : list text) : bool := existsb (teqb x) l.
+Definition str_remove (c : Z) (s : text) : text := filter (fun x => negb (x =? c)) s.
+
+(* list(map(int, l)): the first piece int() refuses raises ValueError *)
+Fixpoint str_ints (l : list text) : outcome (list Z) :=
+  match l with
+  | [] => Val []
+  | x :: t => match py_int x with
+              | None => Exn ValueError
+              | Some z => obind (str_ints t) (fun r => Val (z :: r))
+              end
+  end.
+
+(* min(l) / max(l) of a list or set of non-negative ints: ValueError when empty *)
+Definition list_max (l : list nat) : outcome nat :=
+  match l with [] => Exn ValueError | _ :: _ => Val (fold_right Nat.max 0%nat l) end.
+Definition list_min (l : list nat) : outcome nat :=
+  match l with [] => Exn ValueError | x :: t => Val (fold_right Nat.min x t) end.
